@@ -96,6 +96,18 @@ def nd_case(rng, tier):
         # a multi-character dimension name contained in bc is NOT periodic
         names, per, ax = ["x", "y", "xy"], [0, 1], 2
         cell[ax] = F(rng.choice([1, 2, 4]), rng.choice([1, 2, 4, 8]))
+    if bc_kw is None and nd >= 2 and rng.random() < 0.12:
+        # two dimensions whose names differ only in case: one periodic, the derivative along the OTHER one is open
+        lo_, up_ = rng.choice([("x", "X"), ("a", "A"), ("t", "T"), ("n", "N")])
+        rest = rng.sample(["y", "z", "q"], nd - 2)
+        names = [lo_, up_] + rest
+        rng.shuffle(names)
+        pa, oa = names.index(lo_), names.index(up_)
+        if rng.random() < 0.5:
+            pa, oa = oa, pa
+        per = [pa] + [a for a in range(nd) if a not in (pa, oa) and rng.random() < 0.3]
+        ax = oa if rng.random() < 0.7 else pa
+        cell[ax] = F(rng.choice([1, 2, 4]), rng.choice([1, 2, 4, 8]))
     vd = rng.sample(["p", "q", "r", "s", "u"], nvdim) if nvdim > 1 and rng.random() < 0.5 else None
     return dict(kind="nd", sh=sh, nvdim=nvdim, ax=ax, order=rng.choice([1, 2]), cell=[g.qs(x) for x in cell],
                 p1=[g.qs(x) for x in p1], periodic_axes=per, restrict=rng.random() < 0.8,
